@@ -1,7 +1,7 @@
 """C02 — every emitted proto is well-formed; bad programs are refused."""
 import re
 
-MODULES = ["contracts.c02_wellformed", "contracts.c01_converter"]
+MODULES = ["contracts.c02_wellformed", "contracts.c01_converter", "contracts.c02_modelproto"]
 
 
 def INCLUDE(name):
@@ -37,7 +37,62 @@ sys.exit(1 if bad else 0)
 '''
 
 
+MODELPROTO = '''
+import sys, os, tempfile, importlib.util
+src = """
+from onnxscript import script, FLOAT, BOOL
+from onnxscript import opset18 as op
+from onnxscript.values import Opset
+custom = Opset("my.custom", 3)
+
+@script(custom)
+def helper(x):
+    return op.Add(x, x)
+
+@script(default_opset=op)
+def top_level(x: FLOAT[None]) -> FLOAT[None]:
+    return helper(x)
+
+@script(default_opset=op)
+def in_branch(x: FLOAT[None], c: BOOL) -> FLOAT[None]:
+    if c:
+        y = helper(x)
+    else:
+        y = op.Identity(x)
+    return y
+
+@script(default_opset=op)
+def in_loop(x: FLOAT[None]) -> FLOAT[None]:
+    acc = x
+    for i in range(3):
+        acc = helper(acc)
+    return acc
+"""
+d = tempfile.mkdtemp(); path = os.path.join(d, "mp_case.py"); open(path, "w").write(src)
+spec = importlib.util.spec_from_file_location("mp_case", path); mod = importlib.util.module_from_spec(spec); sys.modules["mp_case"] = mod; spec.loader.exec_module(mod)
+import onnx
+bad = 0
+for name in ("top_level", "in_branch", "in_loop"):
+    m = getattr(mod, name).to_model_proto()
+    doms = [o.domain for o in m.opset_import]
+    fdoms = sorted({f.domain for f in m.functions})
+    missing = [d for d in fdoms if d not in doms]
+    if missing or len(doms) != len(set(doms)):
+        print(f"{name}: model functions live in domains {fdoms} but opset_import = {doms}")
+        bad += 1
+        continue
+    try:
+        onnx.checker.check_model(m)
+    except Exception as e:
+        print(f"{name}: checker rejects the model: {str(e).splitlines()[0][:150]}")
+        bad += 1
+sys.exit(1 if bad else 0)
+'''
+
+
 def replay(ob):
+    if "to_model_proto" in ob["name"] or "get_called_functions" in ob["name"]:
+        return MODELPROTO
     if "signature" in ob["name"]:
         return NESTED
     return None
